@@ -5,6 +5,7 @@ package vexplore
 
 import (
 	"fmt"
+	"os"
 	"sort"
 	"strings"
 	"time"
@@ -132,7 +133,11 @@ func (x *explorer) options(prefix []vsched.Pick) vsched.Options {
 // runOnce executes the scenario with the given prefix and evaluates its check.
 func runOnce(sc *Scenario, o vsched.Options) (*vsched.Exec, Result) {
 	var final func() Result
+	t0 := time.Now()
 	e := vsched.Run(o, func(e *vsched.Exec) { final = sc.Body(e) })
+	if os.Getenv("VERIF_SLOWLOG") != "" && time.Since(t0) > 200*time.Millisecond {
+		fmt.Fprintf(os.Stderr, "SLOW %s: %v wall, %d steps, %d choices, pruned=%v clock=%v picks=%v\n", sc.Name, time.Since(t0), e.Steps, len(e.Trace), e.Pruned, e.Clock(), deviationsOf(e))
+	}
 	var r Result
 	if e.Pruned || e.HarnessErr != "" {
 		return e, r
@@ -413,6 +418,17 @@ func DescribeTrace(e *vsched.Exec) []string {
 	}
 	if len(out) == 0 {
 		out = []string{"default schedule (no deviation)"}
+	}
+	return out
+}
+
+// deviationsOf lists (choice index, pick) of the non-default choices of an execution (diagnostics).
+func deviationsOf(e *vsched.Exec) [][2]int {
+	var out [][2]int
+	for i, c := range e.Trace {
+		if c.Picked != 0 {
+			out = append(out, [2]int{i, c.Picked})
+		}
 	}
 	return out
 }
